@@ -93,9 +93,14 @@ def corr_optimizer(ctx, spec, batch):
     prog, cmds = og.build(spec)
     names = og.free_names(spec)
     before = snapshot(prog)
-    opt = real_optimize(prog)
-    after = snapshot(prog)
     ctx.oracle_cases += 1
+    try:
+        opt = real_optimize(prog)
+    except Exception as e:
+        ctx.fail(f"optimize-raises:{type(e).__name__}", f"Program.optimize() raised {type(e).__name__}: {str(e)[:200]}",
+                 dict(kind="purity", spec=spec, how="optimize"))
+        return prog, None
+    after = snapshot(prog)
     if before != after:
         ctx.fail("optimize-mutates-original", "Program.optimize() modified the original program or its operation objects",
                  dict(kind="purity", spec=spec, how="optimize"))
@@ -491,6 +496,8 @@ def corpus_specs():
 
 def run_spec(ctx, sf, spec, batch, backend=None, compiled=True):
     prog, opt = corr_optimizer(ctx, spec, batch)
+    if opt is None:
+        return
     changed = len(opt.circuit) != len(prog.circuit)
     ctx.count("corr:" + ("changed" if changed else "unchanged"), ["spec", spec],
               changed and len({w for o in spec["ops"] for w in o["regs"]}) >= 2)
@@ -571,7 +578,7 @@ def replay(ctx, rp):
     elif rp["kind"] == "purity":
         batch = []
         prog, opt = corr_optimizer(ctx, rp["spec"], batch)
-        if rp.get("how") == "compile":
+        if rp.get("how") == "compile" and opt is not None:
             oracle_program(ctx, sf, rp["spec"], rp["backend"], prog, opt, True)
     else:
         oracle_program(ctx, sf, rp["spec"], rp["backend"], None, None, True)
